@@ -8,52 +8,66 @@ def errName : Err → String
   | .range => "panic:range"
 
 /-- the widest value the line protocol accepts for a type: the bit patterns of the Go type (bool: 0/1) -/
-def inDomain (t : Ty) (v : Nat) : Bool :=
+def inDomain (P : Params) (t : Ty) (v : Nat) : Bool :=
   match t with
   | .bool => v < 2
   | .u8 | .i8 => v < 2^8
   | .u16 | .i16 => v < 2^16
   | .u32 | .i32 | .f32 => v < 2^32
   | .u64 | .i64 | .f64 => v < 2^64
-  | .uint | .int => v < 2^(8 * params.word)
+  | .uint | .int => v < 2^(8 * P.word)
+
+/-- state of the driver: the tables of the word size of the run, and the unread bytes -/
+structure DrvState where
+  P : Params
+  b : Buf
 
 /--
+`arch bits=32|64` → `ok`                        the word size of the build that produced the op stream: selects the
+                                                tables extracted for is64Bit = false / true (`mkParams`); without this
+                                                line the platform of the extractor run (`params`) is assumed
 `new`            → `ok`                         fresh buffer
 `w <T> <bits>`   → `len=<n>`                    Write<T>, then Len()
 `r <T>`          → `v=<bits> len=<n>` | `panic:eof`
 `p <T>`          → `v=<bits> len=<n>` | `panic:range`     (Len() after the peek)
 `bytes`          → hex of the unread bytes
-`info`           → the platform word size and the row names the tables were extracted for
+`info`           → the word size and the row names the tables were extracted for
 -/
-def drvStep (b : Buf) (line : String) : Buf × String :=
+def drvStep (s : DrvState) (line : String) : DrvState × String :=
+  let P := s.P
+  let b := s.b
   match words line with
-  | ["new"] => ([], "ok")
-  | ["info"] => (b, s!"word={params.word} types={",".intercalate params.names}")
-  | ["bytes"] => (b, hex b)
+  | ["arch", a] =>
+    if a == "bits=64" then ({ P := mkParams true, b := [] }, "ok")
+    else if a == "bits=32" then ({ P := mkParams false, b := [] }, "ok")
+    else (s, "bad-op")
+  | ["new"] => ({ s with b := [] }, "ok")
+  | ["info"] => (s, s!"word={P.word} types={",".intercalate P.names}")
+  | ["bytes"] => (s, hex b)
   | ["w", t, v] =>
     match Ty.ofName? t, v.toNat? with
     | some t, some v =>
-      if inDomain t v then
-        let b' := write params b t v
-        (b', s!"len={b'.length}")
-      else (b, "bad-op")
-    | _, _ => (b, "bad-op")
+      if inDomain P t v then
+        let b' := write P b t v
+        ({ s with b := b' }, s!"len={b'.length}")
+      else (s, "bad-op")
+    | _, _ => (s, "bad-op")
   | ["r", t] =>
     match Ty.ofName? t with
     | some t =>
-      match read params b t with
-      | .ok (v, b') => (b', s!"v={v} len={b'.length}")
-      | .error e => (b, errName e)
-    | none => (b, "bad-op")
+      match read P b t with
+      | .ok (v, b') => ({ s with b := b' }, s!"v={v} len={b'.length}")
+      | .error e => (s, errName e)
+    | none => (s, "bad-op")
   | ["p", t] =>
     match Ty.ofName? t with
     | some t =>
-      match peek params b t with
-      | .ok v => (b, s!"v={v} len={b.length}")
-      | .error e => (b, errName e)
-    | none => (b, "bad-op")
-  | _ => (b, "bad-op")
+      match peek P b t with
+      | .ok v => (s, s!"v={v} len={b.length}")
+      | .error e => (s, errName e)
+    | none => (s, "bad-op")
+  | _ => (s, "bad-op")
 
-def drvMain : IO Unit := run ([] : Buf) drvStep
+def drvMain : IO Unit := run ({ P := params, b := [] } : DrvState) drvStep
 
 end Fatchoy.C19
